@@ -160,6 +160,8 @@ class Path:
 
 
 class _Expand(ast.NodeTransformer):
+    helpers = {}   # set per Summariser: {name: (params, expression)} of new one-expression functions of the module
+
     def __init__(self, env, known_none=()):
         self.env = env
         self.known_none = known_none
@@ -197,6 +199,41 @@ class _Expand(ast.NodeTransformer):
     def visit_Call(self, node):
         self.generic_visit(node)
         f = node.func
+        # first match in a literal table: next((V for K, V in {k1: v1, ...}.items() if P(K)), d) = v1 if P(k1) else ... else d
+        if isinstance(f, ast.Name) and f.id == "next" and 1 <= len(node.args) <= 2 and not node.keywords and \
+                isinstance(node.args[0], ast.GeneratorExp) and len(node.args[0].generators) == 1:
+            g = node.args[0].generators[0]
+            it = g.iter
+            if isinstance(it, ast.Call) and isinstance(it.func, ast.Attribute) and it.func.attr == "items" and isinstance(it.func.value, ast.Dict) \
+                    and it.func.value.keys and all(k is not None and isinstance(k, (ast.Name, ast.Attribute, ast.Constant)) for k in it.func.value.keys) \
+                    and all(isinstance(v, (ast.Name, ast.Attribute, ast.Constant)) for v in it.func.value.values) \
+                    and isinstance(g.target, ast.Tuple) and len(g.target.elts) == 2 and all(isinstance(e, ast.Name) for e in g.target.elts) \
+                    and len(g.ifs) == 1 and len(node.args) == 2:
+                kn, vn = (e.id for e in g.target.elts)
+                out = node.args[1]
+                for k, v in reversed(list(zip(it.func.value.keys, it.func.value.values))):
+                    sub = {kn: k, vn: v}
+                    test = _Expand(sub).visit(clone(g.ifs[0]))
+                    elt = _Expand(sub).visit(clone(node.args[0].elt))
+                    out = ast.IfExp(test=test, body=elt, orelse=out)
+                return ast.fix_missing_locations(ast.copy_location(out, node))
+        # map(f, xs) is (f(x) for x in xs)
+        if isinstance(f, ast.Name) and f.id == "map" and len(node.args) == 2 and not node.keywords and isinstance(node.args[0], (ast.Name, ast.Attribute)):
+            v = ast.Name(id="_m", ctx=ast.Load())
+            gen = ast.GeneratorExp(elt=ast.Call(func=node.args[0], args=[v], keywords=[]),
+                                   generators=[ast.comprehension(target=ast.Name(id="_m", ctx=ast.Store()), iter=node.args[1], ifs=[], is_async=0)])
+            return ast.fix_missing_locations(ast.copy_location(gen, node))
+        # (f if c else g)(args) is f(args) if c else g(args)
+        if isinstance(f, ast.IfExp):
+            a_ = ast.Call(func=f.body, args=node.args, keywords=node.keywords)
+            b_ = ast.Call(func=f.orelse, args=[clone(x) for x in node.args], keywords=[clone(x) for x in node.keywords])
+            out = ast.IfExp(test=f.test, body=self.visit_Call(ast.copy_location(a_, node)), orelse=self.visit_Call(ast.copy_location(b_, node)))
+            return ast.fix_missing_locations(ast.copy_location(out, node))
+        # a call of a small new function of this module whose body is one expression stands for that expression
+        if isinstance(f, ast.Name) and f.id in self.helpers and not node.keywords and not any(isinstance(a, ast.Starred) for a in node.args):
+            params, expr = self.helpers[f.id]
+            if len(params) == len(node.args):
+                return ast.fix_missing_locations(ast.copy_location(_Expand(dict(zip(params, node.args))).visit(clone(expr)), node))
         if isinstance(f, ast.Attribute) and f.attr in ("values", "keys") and isinstance(f.value, ast.Dict) and not node.args \
                 and not node.keywords and f.value.keys and all(k is not None for k in f.value.keys):
             # the values / keys of a literal table are the tuple of them
@@ -308,6 +345,25 @@ class Summariser:
             else:
                 assigned |= {n.id for n in ast.walk(st) if isinstance(n, ast.Name) and isinstance(n.ctx, (ast.Store, ast.Del))}
         self.module_objects = objs - assigned - local
+        # new (not pinned) module-level functions whose body is a single effect-free expression: their calls are expanded
+        self.expr_helpers = {}
+        try:
+            from . import normalise as _N
+            shape = (_N.load_shape() or {}).get(getattr(mod, "name", ""), None)
+        except Exception:  # pragma: no cover
+            shape = None
+        if shape is not None:
+            for st in getattr(mod, "tree", ast.Module(body=[], type_ignores=[])).body:
+                if isinstance(st, ast.FunctionDef) and st.name not in shape["functions"] and not st.decorator_list and st is not fn:
+                    a = st.args
+                    if a.vararg or a.kwarg or a.kwonlyargs or a.posonlyargs or a.defaults:
+                        continue
+                    try:
+                        ex = _N.as_expression(_N._strip_doc(st.body))
+                    except Exception:
+                        ex = None
+                    if ex is not None and _N.is_pure(ex):
+                        self.expr_helpers[st.name] = ([x.arg for x in a.args], ex)
 
     # names only ever bound to list displays / list comprehensions / list(...) in this function
     def _list_vars(self):
@@ -337,6 +393,7 @@ class Summariser:
         if e is None:
             return None
         none = {a[:-len(" is None")] for a, v, _ in p.cond if v and a.endswith(" is None") and a[:-len(" is None")].isidentifier()}
+        _Expand.helpers = self.expr_helpers
         out = _Expand(p.env, none - set(p.env)).visit(clone(e))
         ast.fix_missing_locations(out)
         return out
